@@ -49,6 +49,10 @@ type c11Resp struct {
 	// FailWrapsEOF: the failing callback returns an error that wraps io.EOF
 	// (still "another error": only the unwrapped io.EOF means "resume later")
 	FailWrapsEOF bool `json:"fail_wraps_eof,omitempty"`
+	// FailWrapsEED: the failing callback reports an EARLIER statement's error
+	// as its cause: its error wraps a *tds.EEDError holding message 99999,
+	// which is no message of this response
+	FailWrapsEED bool `json:"fail_wraps_an_earlier_eed_error,omitempty"`
 	// Poll: the consumer polls with NextPackageUntil(wait=false) until
 	// something is there (the packets of the response arrive meanwhile)
 	Poll bool `json:"polling_consumer,omitempty"`
@@ -66,6 +70,7 @@ type c11Event struct {
 
 var errC11Callback = errors.New("c11 callback failure")
 var errC11WrapsEOF = fmt.Errorf("c11 callback failure while scanning: %w", io.EOF)
+var errC11WrapsEED = fmt.Errorf("c11 callback failure, caused by the earlier statement: %w", &tds.EEDError{EEDPackages: []*tds.EEDPackage{{MsgNumber: 99999, Msg: "message of an earlier statement"}}, WrappedError: errors.New("earlier statement failed")})
 
 func c11Run(c *Ctx, cs c11Case) {
 	r := c.R
@@ -244,6 +249,9 @@ func c11Run(c *Ctx, cs c11Case) {
 					failed = true
 					if rp.FailWrapsEOF {
 						return false, errC11WrapsEOF
+					}
+					if rp.FailWrapsEED {
+						return false, errC11WrapsEED
 					}
 					// every other failing callback says "stop" and fails at once
 					return idx%2 == 1, errC11Callback
@@ -430,6 +438,9 @@ func c11Run(c *Ctx, cs c11Case) {
 				if rp.FailWrapsEOF {
 					cb = errC11WrapsEOF
 				}
+				if rp.FailWrapsEED {
+					cb = errC11WrapsEED
+				}
 				if retErr == nil || !errors.Is(retErr, cb) || retErr == io.EOF {
 					fail("callback-error/not-matching", fmt.Sprintf("NextPackageUntil returned %v, want an error matching the callback's", retErr))
 					return
@@ -453,7 +464,15 @@ func c11Run(c *Ctx, cs c11Case) {
 				}
 				var carried []uint32
 				var ee *tds.EEDError
-				if errors.As(retErr, &ee) {
+				if rp.FailWrapsEED {
+					// the callback's own error contains an EEDError as well:
+					// only the outermost error speaks for this response
+					if outer, isEED := retErr.(*tds.EEDError); isEED {
+						for _, p := range outer.EEDPackages {
+							carried = append(carried, p.MsgNumber)
+						}
+					}
+				} else if errors.As(retErr, &ee) {
 					for _, p := range ee.EEDPackages {
 						carried = append(carried, p.MsgNumber)
 					}
@@ -656,6 +675,7 @@ func c11GenResp(rnd *rt.Rand, nextMsg *uint32, curPS *int, first bool) c11Resp {
 		}
 		rp.FailWrapsEOF = rnd.Chance(1, 3)
 		rp.Poll = rnd.Chance(1, 3)
+		rp.FailWrapsEED = !rp.FailWrapsEOF && rnd.Chance(1, 4)
 	}
 	rp.Yield = rnd.Intn(4)
 	return rp
@@ -672,6 +692,11 @@ func runC11(c *Ctx) {
 			c11DrainRun(c, dc)
 			return
 		}
+		var sc c11SizeCase
+		if json.Unmarshal(c.Replay, &sc) == nil && sc.Scenario == "size" {
+			c11SizeRun(c, sc)
+			return
+		}
 		var cs c11Case
 		if err := json.Unmarshal(c.Replay, &cs); err != nil {
 			r.Inconclusive("bad replay: %v", err)
@@ -681,6 +706,7 @@ func runC11(c *Ctx) {
 		return
 	}
 	runC11Drain(c)
+	runC11Size(c)
 	n := 5000
 	if !c.Quick() {
 		n = 400000
